@@ -5,6 +5,7 @@
 -- and tied to the code by the correspondence harness.  Raw words are canonical integers: a raw word
 -- `r` satisfies `Inv r := r < p` and denotes the residue `val r = (r : ZMod p)`.
 import WinterProofs.Lemmas.C07F128Z
+import WinterProofs.Lemmas.C07F128Inv
 import WinterProofs.Lemmas.C07Bytes
 import WinterProofs.Lemmas.Primes
 
@@ -104,6 +105,22 @@ theorem exp_correct (a e : Nat) (ha : Inv a) (he : e < 2 ^ 128) :
     Inv (Model.F128.exp a e) ∧ val (Model.F128.exp a e) = val a ^ e :=
   exp_spec a e ha he
 
+/-- inversion (binary extended GCD): terminates within the model's fuel for every canonical word,
+    zero maps to zero (`0⁻¹ = 0` in `ZMod p`), every other word to the canonical inverse -/
+theorem inv_correct (a : Nat) (ha : Inv a) :
+    ∃ r, Model.F128.inv a = .done r ∧ Inv r ∧ val r = (val a)⁻¹ :=
+  inv_total a ha
+
+theorem div_correct (a b : Nat) (ha : Inv a) (hb : Inv b) :
+    ∃ r, Model.F128.impl.div a b = .done r ∧ Inv r ∧ val r = val a / val b := by
+  obtain ⟨i, hi, hii, hiv⟩ := inv_total b hb
+  refine ⟨mul a i, ?_, mul_inv a i ha hii, ?_⟩
+  · show (match Model.F128.inv b with
+      | .done i => Fuel.done (mul a i)
+      | .out => Fuel.out) = Fuel.done (mul a i)
+    rw [hi]
+  · rw [val_mul a i ha hii, hiv, div_eq_mul_inv]
+
 /-- `as_int` is the identity on raw words: the canonical representative of the residue -/
 theorem as_int_correct (a : Nat) (ha : Inv a) :
     Model.F128.impl.asInt a < M ∧ Model.F128.impl.asInt a = (val a).val :=
@@ -192,6 +209,82 @@ theorem get_root_of_unity_correct (n : Nat) :
         congr 1; omega
       · rw [root_of_unity_order]
         exact pow_dvd_pow 2 (by show 40 - n ≤ 40; omega)
+
+/-! ### the representation invariant over every sequence of public operations -/
+
+/-- the meaning of an operation sequence on residues (`mulSmall` does not exist in this field:
+    the harness maps it to the identity) -/
+def specStep (st : ZMod P × ZMod P) : FieldImpl.SeqOp → ZMod P × ZMod P
+  | .add => (st.1 + st.2, st.2)
+  | .sub => (st.1 - st.2, st.2)
+  | .mul => (st.1 * st.2, st.2)
+  | .neg => (-st.1, st.2)
+  | .dbl => (2 * st.1, st.2)
+  | .sq => (st.1 ^ 2, st.2)
+  | .swap => (st.2, st.1)
+  | .inv => (st.1⁻¹, st.2)
+  | .div => (st.1 / st.2, st.2)
+  | .mulSmall _ => st
+
+theorem seq_step (acc y : Nat) (op : FieldImpl.SeqOp) (ha : Inv acc) (hy : Inv y) :
+    ∃ acc' y', Model.F128.impl.seqStep (fun a _ => a) (some (acc, y)) op = some (acc', y') ∧
+      Inv acc' ∧ Inv y' ∧ (val acc', val y') = specStep (val acc, val y) op := by
+  cases op with
+  | add => exact ⟨add acc y, y, rfl, add_inv _ _ ha hy, hy, by rw [val_add _ _ ha hy]; rfl⟩
+  | sub => exact ⟨sub acc y, y, rfl, sub_inv _ _ ha hy, hy, by rw [val_sub _ _ ha hy]; rfl⟩
+  | mul => exact ⟨mul acc y, y, rfl, mul_inv _ _ ha hy, hy, by rw [val_mul _ _ ha hy]; rfl⟩
+  | neg => exact ⟨neg acc, y, rfl, neg_inv _ ha, hy, by rw [val_neg _ ha]; rfl⟩
+  | dbl =>
+    exact ⟨add acc acc, y, rfl, add_inv _ _ ha ha, hy, by rw [val_add _ _ ha ha, ← two_mul]; rfl⟩
+  | sq => exact ⟨mul acc acc, y, rfl, mul_inv _ _ ha ha, hy, by rw [val_mul _ _ ha ha, ← pow_two]; rfl⟩
+  | swap => exact ⟨y, acc, rfl, hy, ha, rfl⟩
+  | inv =>
+    obtain ⟨r, hr, hri, hrv⟩ := inv_total acc ha
+    refine ⟨r, y, ?_, hri, hy, by rw [hrv]; rfl⟩
+    show (match Model.F128.inv acc with
+      | .done r => some (r, y)
+      | .out => none) = some (r, y)
+    rw [hr]
+  | div =>
+    obtain ⟨r, hr, hri, hrv⟩ := div_correct acc y ha hy
+    refine ⟨r, y, ?_, hri, hy, by rw [hrv]; rfl⟩
+    show (match Model.F128.impl.div acc y with
+      | .done r => some (r, y)
+      | .out => none) = some (r, y)
+    rw [hr]
+  | mulSmall k => exact ⟨acc, y, rfl, ha, hy, rfl⟩
+
+/-- every state reachable from integers by public operations satisfies the representation
+    invariant and denotes the residues obtained by the same operations in `ZMod p` (no operation
+    runs out of fuel); in particular `==` and serialization agree with residue equality in every
+    reachable state -/
+theorem seq_invariant (a b : Nat) (ha : a < 2 ^ 128) (hb : b < 2 ^ 128) (ops : List FieldImpl.SeqOp) :
+    ∃ acc y, Model.F128.impl.runSeq (fun a _ => a) a b ops = some (acc, y) ∧ Inv acc ∧ Inv y ∧
+      (val acc, val y) = ops.foldl specStep ((a : ZMod P), (b : ZMod P)) := by
+  unfold FieldImpl.runSeq
+  have h0 : ∃ acc y, (some (Model.F128.impl.new a, Model.F128.impl.new b) : Option (Nat × Nat)) = some (acc, y) ∧
+      Inv acc ∧ Inv y ∧ (val acc, val y) = ((a : ZMod P), (b : ZMod P)) :=
+    ⟨new a, new b, rfl, new_inv a ha, new_inv b hb, by rw [val_new a ha, val_new b hb]⟩
+  generalize (some (Model.F128.impl.new a, Model.F128.impl.new b) : Option (Nat × Nat)) = st at h0
+  generalize (((a : ZMod P), (b : ZMod P)) : ZMod P × ZMod P) = sp at h0 ⊢
+  induction ops generalizing st sp with
+  | nil => simpa using h0
+  | cons op ops ih =>
+    obtain ⟨acc, y, rfl, hi1, hi2, hv⟩ := h0
+    obtain ⟨acc', y', hs, hj1, hj2, hv'⟩ := seq_step acc y op hi1 hi2
+    rw [List.foldl_cons, List.foldl_cons, hs]
+    apply ih
+    exact ⟨acc', y', rfl, hj1, hj2, by rw [hv', hv]⟩
+
+/-- non-vacuity: concrete raw words satisfy the invariant and are not trivial -/
+example : Inv (new 5) ∧ Inv (new (2 ^ 128 - 1)) ∧ new (2 ^ 128 - 1) = 45 * 2 ^ 40 - 2 :=
+  ⟨new_inv 5 (by norm_num), new_inv _ (by norm_num), by decide⟩
+
+/-- the input on which an earlier version of the model ran out of fuel in the final reduction
+    (the accumulator leaves the GCD loop in `[11p, 12p)`): inverted correctly -/
+example : ∃ r, Model.F128.inv 340282366920938463463374557953744860744 = .done r ∧ Inv r ∧
+    val r = (val 340282366920938463463374557953744860744)⁻¹ :=
+  inv_correct _ (by unfold F128Z.Inv; decide)
 
 end F128
 
